@@ -215,7 +215,7 @@ ParseClauses(pre, c, post, ret, r) ==
     IF c.op = "parse_text" THEN
       << <<"C15_Terminates", r.parse # "timeout">>,
          <<"C15_PolicyRestored", r.policy_after = r.policy_before>>,
-         <<"C15_FreshBehaviour", r.probe_same>>,
+         <<"C15_FreshBehaviour", r.probe_same /\ (("parse2" \in DOMAIN r) => r.parse2 = r.parse)>>,
          <<"C15_NoHalfBuilt", (r.parse = "ok" /\ Len(ret) = 1) => (WF(post) /\ SelfContained(post, ret[1]))>>,
          <<"C15_DanglingRejected", (c.kind \in {"dangle", "crosslib"}) => r.parse # "ok">>,
          <<"C15_ValidAccepted", (c.kind = "none") => r.parse = "ok">> >>
